@@ -26,7 +26,7 @@ EXPLANATION = (
     'thread 0 only); plus a frozen set of static-storage variables written after start-up. Every field of the listed classes must '
     'have a row (new fields fail until classified).'
     ' The options hand-over (waitOptionsSet returning) is decided by the completion-flag typestate: optionsSetFinished is set only under the mutex with the pending queue and every swapped-out batch known empty.'
-    ' Added later; (6) unlocked walks of Communicator::children in poll are followed by a lock acquisition; (7) option reads on the go paths follow waitOptionsSet; (8) the start-up seeding of the lazily filled maxSubDTM map covers every pawn split up to colour mirroring, so search threads only look it up. (9) every Notifier::wait outside a re-checking loop waits without a time limit (the hand-over edges the table relies on). (10) ~WorkerThread destroys its sub-workers only after its own thread, which polls their communicators unlocked, has been joined - found and fixed defect D20.')
+    ' Added later; (6) unlocked walks of Communicator::children in poll are followed by a lock acquisition; (7) option reads on the go paths follow waitOptionsSet; (8) the start-up seeding of the lazily filled maxSubDTM map covers every pawn split up to colour mirroring, so search threads only look it up. (9) every Notifier::wait outside a re-checking loop waits without a time limit (the hand-over edges the table relies on). (10) ~WorkerThread destroys its sub-workers only after its own thread, which polls their communicators unlocked, has been joined - found and fixed defect D20. (11) a ThreadPool task touches an output stream of the enclosing function only to choose its own log under the single-worker test, or under a mutex.')
 UNDECIDED = ('absence of races in the C++ memory-model sense for the whole engine (needs dynamic happens-before tracking); rows marked '
              'HB-protocol rely on message-protocol ordering that is listed, not proved; maxSubDTM/maxDTM lazy maps are not judged '
              '(6/7-men tablebase files needed to reach the insertion).')
@@ -182,6 +182,7 @@ def run(fb, rep, tier):
     c8_lazy_map_seeded(fb, rep)
     c9_hand_over_waits_are_unbounded(fb, rep)
     c10_worker_teardown_order(fb, rep)
+    c11_pool_tasks_log_privately(fb, rep)
     # .7 option values (plain bool / int members of the parameter objects) are written by the engine thread and read by the
     # protocol thread when it handles `go`: the only happens-before edge is waitOptionsSet() inside stopThread(), which must
     # therefore precede every option-reading call on the go paths (shared with C06.4)
@@ -803,3 +804,77 @@ def c10_worker_teardown_order(fb, rep, clause='C09.10'):
             early.append(e)
     rep.ob(clause, 'K2 hand-over', '~WorkerThread destroys its sub-workers only after its own thread has been joined (or found absent)', not early,
            R.site(f, early[0]) if early else f.where, '%d explicit destruction(s) of the sub-workers, %d before the join decision' % (len(kills), len(early)), f.sname)
+
+
+# ----------------------------------------------------------------------------- .11
+
+def c11_pool_tasks_log_privately(fb, rep, clause='C09.11'):
+    """K8 confinement of a shared output stream.  The proof-game filter runs its work items on a ThreadPool; each task writes its
+    log into its own string stream and the main thread copies the text to the real log (std::clog, unsynchronised in
+    texelutil) when the task has been retired.  The real stream is captured by reference only so that a single-worker run
+    can log directly.  Inside a pool task, therefore, an output stream of the enclosing function may appear only in the
+    initialiser of the task's own alias, selected under the single-worker test, or while a lock guard is alive (the book
+    tools print their result lines under a mutex), or as an argument handed on together with that mutex; every other use
+    writes to a shared stream from several threads."""
+    n_tasks = 0
+    for f in sorted(fb.funcs.values(), key=lambda x: x.key):
+        if not f.has_cfg or not R.in_prog(f) or '(lambda' in f.key:
+            continue
+        lambdas = [l for l in fb.lambdas_in(f) if l.has_cfg]
+        if not lambdas:
+            continue
+        # enclosing function submits lambdas to a ThreadPool
+        if not any(e.get('k') == 'call' and 'ThreadPool' in cname(e) and cname(e).split('::')[-1] == 'addTask' for _, _, e in f.events()):
+            continue
+        outer_streams = {p_['id'] for p_ in f.d.get('params', []) if 'ostream' in (p_.get('t') or '')}
+        outer_streams |= {v['id'] for _, _, e in f.events() if e.get('k') == 'decl' for v in e.get('vars', []) if 'ostream' in (v.get('t') or '') and '&' in (v.get('t') or '')}
+        if not outer_streams:
+            continue
+        outer_names = {p_['n'] for p_ in f.d.get('params', []) if 'ostream' in (p_.get('t') or '')}
+        outer_names |= {v['n'] for _, _, e in f.events() if e.get('k') == 'decl' for v in e.get('vars', []) if 'ostream' in (v.get('t') or '') and '&' in (v.get('t') or '')}
+        for l in lambdas:
+            # the captures of this lambda (ids inside a lambda body are its own: match the captured names)
+            caps = set()
+            for _, _, e in f.events():
+                for x in walk(e):
+                    if isinstance(x, dict) and x.get('k') == 'lambda' and x.get('f') == l.key:
+                        caps |= {c.get('n') for c in x.get('caps', []) if c.get('n')}
+            shared = caps & outer_names
+            if not shared:
+                continue
+            n_tasks += 1
+            uses, alias_ok, stray = 0, 0, []
+            local_decl = {v['id'] for _, _, e in l.events() if e.get('k') == 'decl' for v in e.get('vars', [])}
+            outer_streams = {x.get('id') for _, _, e in l.events() for x in walk(e) if isinstance(x, dict) and x.get('k') == 'var' and x.get('n') in shared and
+                             'ostream' in (x.get('t') or '') and x.get('id') not in local_decl}
+            for b, i, e in l.events():
+                hit = [x for x in walk(e) if isinstance(x, dict) and x.get('k') == 'var' and x.get('id') in outer_streams and 'ostream' in (x.get('t') or '')]
+                if not hit:
+                    continue
+                uses += len(hit)
+                if e.get('k') == 'decl' and all('ostream' in (v.get('t') or '') and '&' in (v.get('t') or '') for v in e.get('vars', [])):
+                    init = e['vars'][0].get('init')
+                    c = init
+                    while isinstance(c, dict) and c.get('k') in ('cast', 'paren'):
+                        c = c.get('e')
+                    single = isinstance(c, dict) and c.get('k') == 'cond' and any(isinstance(x, dict) and x.get('k') == 'mem' and (ap(x) or '').endswith('nWorkers') for x in walk(c.get('c')))
+                    if single:
+                        one = lambda t: ('v', 1) if t.get('k') == 'mem' and (ap(t) or '').endswith('nWorkers') else None
+                        many = lambda t: ('v', 4) if t.get('k') == 'mem' and (ap(t) or '').endswith('nWorkers') else None
+                        pick_many = c.get('a') if G.tv(c.get('c'), many) else c.get('b')
+                        if not any(isinstance(x, dict) and x.get('k') == 'var' and x.get('id') in outer_streams for x in walk(pick_many)) and G.tv(c.get('c'), one) is not None:
+                            alias_ok += len(hit)
+                            continue
+                # ... or under a mutex (a lock guard alive at the statement), or handed on together with the mutex that guards it
+                try:
+                    held = locksets(l).held(e)
+                except Exception:
+                    held = set()
+                with_mutex = e.get('k') == 'call' and any('mutex' in ((strip_a.get('t') or '') if isinstance(strip_a, dict) else '') for strip_a in e.get('args', []))
+                if held or with_mutex:
+                    alias_ok += len(hit)
+                    continue
+                stray.append(e)
+            rep.ob(clause, 'K8 thread-role confinement', '%s: a pool task touches a stream of the enclosing function only to choose its own log under the single-worker test, or under a mutex' % f.sname.split('::')[-1],
+                   not stray, R.site(l, stray[0]) if stray else l.where, '%d use(s) of an outer stream, %d in the alias choice or under a mutex, %d elsewhere' % (uses, alias_ok, len(stray)), f.sname)
+    rep.floor(clause, 'ThreadPool task lambdas with access to an outer stream', n_tasks, 1)
